@@ -18,8 +18,93 @@ def verdict (b : Bool) : String := if b then "ok" else "err:validation"
 def checkBlockSkipCoinbase (p : Spec.ChainParams) (b : Block) (fPoW fMerkle : Bool) (now : Int) : Res Unit :=
   Model.BlockCheck.checkBlockWith (fun vtx => Model.BlockCheck.txLoop p vtx.tail 1 [] 0) p b fPoW fMerkle now
 
+/-! ### sequences of observations on the same objects (`c16.seq`)
+
+  Every step is answered statelessly: the model has no memory, so whatever the real code remembers
+  from an earlier step (a memo, a scratch set, a counter, the previous chain) shows as a difference. -/
+
+inductive Obj
+  | blk (b : Block)
+  | tx (t : Tx)
+
+def parseObj? (s : String) : Option Obj :=
+  if s.startsWith "B=" then (parseBlock? (s.drop 2).toString).map Obj.blk
+  else if s.startsWith "Ti=" || s.startsWith "Tm=" then (parseTx? (s.drop 3).toString).map Obj.tx
+  else none
+
+def rBytes (r : Res Bytes) : String := Res.render (r.map toHex)
+def rNat (r : Res Nat) : String := Res.render (r.map toString)
+def rLen (r : Res Bytes) : String := Res.render (r.map (fun x => toString x.length))
+
+/-- the transaction a step addresses: object `i` itself (k = "-") or transaction `k` of block `i` -/
+def txOf (objs : List Obj) (i k : String) : Option Tx := do
+  let i ← parseNat? i
+  match ← objs[i]? with
+  | .tx t => if k == "-" then some t else none
+  | .blk b => do let k ← parseNat? k; b.vtx[k]?
+
+def blkOf (objs : List Obj) (i : String) : Option Block := do
+  let i ← parseNat? i
+  match ← objs[i]? with
+  | .blk b => some b
+  | .tx _ => none
+
+def step (objs : List Obj) (s : String) : Option String :=
+  match s.splitOn ":" with
+  | ["flush"] => some "f"
+  | ["new", _] => some "n"
+  | ["mr", i] => (blkOf objs i).map fun b => rBytes (Model.Merkle.calcMerkleRoot b.vtx)
+  | ["wr", i] => (blkOf objs i).map fun b => rBytes (Model.Merkle.calcWitnessMerkleRoot b.vtx)
+  | ["gw", i] => (blkOf objs i).map fun b => rNat (Model.Merkle.getWeight b)
+  | ["s0", i] => (blkOf objs i).map fun b => rLen (Model.Wire.serBlock b false)
+  | ["s1", i] => (blkOf objs i).map fun b => rLen (Model.Wire.serBlock b true)
+  | ["bh", i] => (blkOf objs i).map fun b =>
+      rBytes ((Model.BlockCheck.getHeader b.hdr).bind fun h => (Model.Wire.serHeader h).map Crypto.hash256)
+  | ["ci", i] => (blkOf objs i).map fun b => rNat (Model.BlockCheck.witnessCommitmentIndex b.vtx)
+  | ["ctor", i] => (blkOf objs i).map fun b =>
+      Res.render ((Model.Merkle.blockCtor b.hdr b.vtx).map (fun r => "ok:" ++ toHex r.hdr.hashMerkleRoot))
+  | ["cb", i, chain, now, fpow, fmerkle] => do
+      let b ← blkOf objs i
+      let p ← Spec.chainByName? chain
+      let now ← parseInt? now
+      let f ← parseBool? fpow
+      let g ← parseBool? fmerkle
+      pure (renderUnit (Model.BlockCheck.checkBlock p b f g now))
+  | ["ch", i, chain, now, fpow] => do
+      let b ← blkOf objs i
+      let p ← Spec.chainByName? chain
+      let now ← parseInt? now
+      let f ← parseBool? fpow
+      pure (renderUnit ((Model.BlockCheck.getHeader b.hdr).bind fun h =>
+        Model.BlockCheck.checkBlockHeader p h f now))
+  | ["tid", i, k] => (txOf objs i k).map fun t => rBytes (Model.Merkle.getTxid t)
+  | ["wid", i, k] => (txOf objs i k).map fun t => rBytes (Model.Merkle.getHash t)
+  | ["tw", i, k] => (txOf objs i k).map fun t => rNat (Model.Merkle.calcWeight t)
+  | ["ts0", i, k] => (txOf objs i k).map fun t => rLen (Model.Wire.serTx t false)
+  | ["ts1", i, k] => (txOf objs i k).map fun t => rLen (Model.Wire.serTx t true)
+  | ["th", i, k] => (txOf objs i k).map fun t => Res.render ((Model.Wire.serTx t true).map fun _ => "h")
+  | ["tc", i, k, chain] => do
+      let t ← txOf objs i k
+      let p ← Spec.chainByName? chain
+      pure (renderUnit (Model.BlockCheck.checkTx p t))
+  | ["so", i, k] => (txOf objs i k).map fun t => toString (Model.BlockCheck.legacySigOpCount t)
+  | ["tcb", i, k] => (txOf objs i k).map fun t => if t.isCoinbase then "1" else "0"
+  | ["thw", i, k] => (txOf objs i k).map fun t => if witIsNull t.wit then "0" else "1"
+  | _ => none
+
+def seq (args : List String) : Option String :=
+  match args with
+  | n :: rest => do
+      let n ← parseNat? n
+      if rest.length < n then none
+      let objs ← (rest.take n).mapM parseObj?
+      let outs ← (rest.drop n).mapM (step objs)
+      pure (",".intercalate outs)
+  | [] => none
+
 def handle (op : String) (args : List String) : Option String :=
   match op, args with
+  | "c16.seq", _ => some ((seq args).getD badArgs)
   | "c16.checktx", [chain, tx] => some <|
       match Spec.chainByName? chain, parseTx? tx with
       | some p, some t => renderUnit (Model.BlockCheck.checkTx p t)
